@@ -508,7 +508,9 @@ class Weaver:
                                 piece_hi=len(u.pieces),
                                 # loops of the CURRENT repo text the template gives no invariant for: a proof of this
                                 # function cannot even be attempted (a failure is then `undecided`, not a violation)
-                                unannotated_loops=[n for n in range(len(loops)) if not any((n, w_) in loop_hdr for w_ in ("invariant", "invariant_except_break"))]))
+                                # (a loop inside a statement range replaced by a summary call is not part of the woven text)
+                                unannotated_loops=[n for n in range(len(loops)) if not any((n, w_) in loop_hdr for w_ in ("invariant", "invariant_except_break"))
+                                                   and not any(a <= T(loops[n]["kw_tok"]).start < b for (a, b) in explicit)]))
 
     def _inline(self, real_f, f, src, toks, it, head, helper, elog):
         """returns (virtual file key, virtual src, toks, item) with every `helper(A.., || [-> T] { BODY })?` call in the
